@@ -81,6 +81,11 @@ CHECKS = {
    technique="TLA+ Deadline spec: timeout-string shape classes (WellFormed / Unspecified) and a cancellation state machine whose liveness property CancelReleases TLC checks under weak fairness; TLC-enumerated shapes concretised and sent through the real Mux; cancel / disconnect schedules against gated handlers over loopback sockets (grpc-go client, raw HTTP/1.1); validated by TLC against DeadlineTrace.tla (DeadlineSet, MalformedRefused, CancelReachesContext, CancelReleases)",
    text="Every timeout shape (0..10 value characters, digits or not, legal / missing / unknown / wrong-case unit, signed) is concretised with seeded and boundary values: a well-formed string must reach the handler with a deadline within 250 ms of receipt + value x unit (64-bit, clamped; computed by the driver in arbitrary precision), anything else must be refused without invoking the handler. For each streaming shape the handler is gated into a known position (busy, blocked in Recv, blocked in Send on a full flow-control window, returned) and the client cancels (grpc-go) or disconnects (plain HTTP, gRPC-web): the handler context must end and the blocked call return an error within 5 s.",
    note="Timing-dependent: a rejected schedule is a violation only if it reproduces twice; HTTP/1.1 disconnects with an unread request body are unobservable by net/http and excluded; signed values unspecified. " + TB),
+
+ "C10": dict(engine="Proxy", level="model_checking", design="3.7, 6/C10",
+   technique="TLA+ Proxy spec (client, front with in-pump goroutine and out-loop, scripted backend, FIFO channels with half-close) model-checked by TLC for every script incl. liveness/deadlock-freedom, negative configs (no half-close forwarding, first-message wait); every script executed by a real grpc-go client directly and through larking (RegisterConn); validated by TLC against ProxyTrace.tla (TranscriptEquivalence, BackendSaw, RequestMetadata)",
+   text="TLC checks for all 108 scripts that the proxied composition terminates with the transcripts of the direct one; each script is then run for real on every method shape that carries it: the direct transcript must match the model's oracle (else infrastructure error) and the proxied client must see the same replies, status code, message and details, the backend the same messages, one invocation and the client's request metadata (incl. -bin), with hangs detected by a 4 s bound.",
+   note="Two open known findings (F31, F32: first-message wait) are reported as KNOWN-FINDING lines. Response metadata is outside C10's statement. " + TB),
 }
 
 NOT_YET = {}
